@@ -226,6 +226,11 @@ Proof.
   injection E as -> _. auto.
 Qed.
 
+Ltac qfin Q :=
+  let Hf := fresh "Hf" in let E := fresh "E" in
+  intros Hf; destruct (Q Hf) as (? & ? & [E|[E ?]]); try discriminate;
+  try (injection E as E; subst); try discriminate; auto 6.
+
 Lemma step_cons_inv a0 s s' evs : Inv a0 s -> step_cons s = Some (s', evs) -> Inv a0 s'.
 Proof.
   intros I H. unfold step_cons in H.
@@ -240,6 +245,336 @@ Proof.
     + (* OpDeq *)
       destruct (inactive s) eqn:Ei.
       { unfold self_wake in H. destruct (all_prods_done s); [|discriminate].
-        injection H as <- <-. apply do_mark_active_inv; auto. }
+        injection H as H. replace s' with (fst (do_mark_active s (OpDeq :: rest))) by (now rewrite H).
+        apply do_mark_active_inv; auto. }
       destruct I. destruct (stack s) as [|x r] eqn:Est; injection H as <- <-.
+      * constructor; inv_simpl; rewrite ?Ei, ?Est, ?Es in *; fin. qfin Q_final0.
       * constructor; inv_simpl; rewrite ?Ei, ?Est, ?Es in *; fin.
+    + (* OpTryInactive *)
+      assert (Hnf : finalph s = false) by (eapply final_script; eauto; discriminate).
+      destruct (inactive s) eqn:Ei.
+      { unfold self_wake in H. destruct (all_prods_done s); [|discriminate].
+        injection H as H. replace s' with (fst (do_mark_active s (OpTryInactive :: rest))) by (now rewrite H).
+        apply do_mark_active_inv; auto. }
+      destruct I. destruct (stack s) as [|x r] eqn:Est; injection H as <- <-.
+      * constructor; inv_simpl; rewrite ?Ei, ?Est, ?Es, ?Hnf in *; fin.
+      * constructor; inv_simpl; rewrite ?Ei, ?Est, ?Es, ?Hnf in *; fin.
+    + (* OpInactiveOrDeq *)
+      assert (Hnf : finalph s = false) by (eapply final_script; eauto; discriminate).
+      destruct (inactive s) eqn:Ei.
+      { unfold self_wake in H. destruct (all_prods_done s); [|discriminate].
+        injection H as H. replace s' with (fst (do_mark_active s (OpInactiveOrDeq :: rest))) by (now rewrite H).
+        apply do_mark_active_inv; auto. }
+      destruct I. destruct (stack s) as [|x r] eqn:Est; injection H as <- <-.
+      * constructor; inv_simpl; rewrite ?Ei, ?Est, ?Es, ?Hnf in *; fin.
+      * constructor; inv_simpl; rewrite ?Ei, ?Est, ?Es, ?Hnf in *; fin.
+    + (* OpTryActive *)
+      assert (Hnf : finalph s = false) by (eapply final_script; eauto; discriminate).
+      injection H as H. replace s' with (fst (do_mark_active s rest)) by (now rewrite H).
+      apply do_mark_active_inv; auto.
+    + (* OpFinal *)
+      assert (Hnf : finalph s = false) by (eapply final_script; eauto; discriminate).
+      destruct (all_prods_done s) eqn:Ed; [|discriminate].
+      pose proof (do_mark_active_inv a0 s [OpDeq] I Ec Hnf) as I1.
+      pose proof (do_mark_active_active s [OpDeq]) as A1.
+      destruct (do_mark_active_same s [OpDeq]) as (P1 & S1 & C1 & F1 & K1).
+      destruct (do_mark_active s [OpDeq]) as [s1 e1]. cbn [fst] in *.
+      injection H as <- <-. destruct I1.
+      constructor; inv_simpl; fin. intros _. rewrite P1. auto.
+  - (* CXchg *)
+    injection H as <- <-. specialize (Hina ltac:(discriminate)). destruct I. unfold do_xchg.
+    constructor; inv_simpl; rewrite ?Hina, ?Es in *; fin.
+    + rewrite Q_fifo0. cbn. now rewrite app_nil_r.
+    + qfin Q_final0.
+  - (* CMarkCas *)
+    specialize (Hina ltac:(discriminate)).
+    assert (Hop : op = if b then OpInactiveOrDeq else OpTryInactive).
+    { pose proof (Q_pc a0 s I) as Hpc. unfold pc_ok in Hpc. rewrite Ec in Hpc.
+      destruct Hpc as [r' Hr']. rewrite Es in Hr'. now injection Hr' as -> _. }
+    assert (Hnf : finalph s = false).
+    { eapply final_script; eauto. rewrite Hop. destruct b; discriminate. }
+    subst op. destruct I.
+    destruct (stack s) as [|x r] eqn:Est.
+    + injection H as <- <-.
+      constructor; inv_simpl; rewrite ?Est, ?Hina, ?Hnf, ?Es in *; fin.
+    + destruct b; injection H as <- <-.
+      * constructor; inv_simpl; rewrite ?Est, ?Hina, ?Hnf, ?Es in *; fin.
+      * constructor; inv_simpl; rewrite ?Est, ?Hina, ?Hnf, ?Es in *; fin.
+Qed.
+
+Lemma step_inv a0 t s s' evs : Inv a0 s -> step t s = Some (s', evs) -> Inv a0 s'.
+Proof.
+  intros I H. unfold step in H.
+  destruct (Nat.eqb t 0); [eapply step_cons_inv; eauto|].
+  destruct (Nat.leb t (nprods s)); [eapply step_prod_inv; eauto|discriminate].
+Qed.
+
+Theorem inv_reachable a0 counts ops (sched : list nat) :
+  Inv a0 (fst (run step sched (init a0 counts ops, []))).
+Proof.
+  apply (run_invariant_state _ _ _ step (Inv a0)).
+  - intros s t s' ev. apply step_inv.
+  - apply inv_init.
+Qed.
+
+(* ------------------------------------------------------------------------------------------ *)
+(* the script ends with the final drain                                                        *)
+
+Definition tail_final (l : list cop) : Prop := exists pre, l = pre ++ [OpFinal].
+
+Lemma tail_final_cons op rest : tail_final (op :: rest) -> op <> OpFinal -> tail_final rest.
+Proof.
+  intros [[|p pre] E] Hop; cbn in E; injection E as -> E; [congruence|]. subst. now exists pre.
+Qed.
+
+Definition FInv (s : st) : Prop := finalph s = false -> tail_final (script s).
+
+Lemma do_mark_active_script s ops' : script (fst (do_mark_active s ops')) = ops' /\
+  finalph (fst (do_mark_active s ops')) = finalph s.
+Proof. unfold do_mark_active. destruct (inactive s); auto. Qed.
+
+Lemma cons_script_step a0 s s' evs :
+  Inv a0 s -> step_cons s = Some (s', evs) ->
+  finalph s' = true \/
+  (finalph s' = finalph s /\
+   (script s' = script s \/ exists op, op <> OpFinal /\ script s = op :: script s')).
+Proof.
+  intros I H. pose proof (Q_pc a0 s I) as Hpc. unfold pc_ok in Hpc.
+  unfold step_cons in H. destruct (script s) as [|op rest] eqn:Es; [discriminate|].
+  assert (Hsw : forall o, self_wake s o rest = Some (s', evs) ->
+                finalph s' = finalph s /\ script s' = o :: rest).
+  { intros o Hs. unfold self_wake in Hs. destruct (all_prods_done s); [|discriminate].
+    injection Hs as Hs. destruct (do_mark_active_script s (o :: rest)) as [E1 E2].
+    rewrite Hs in E1, E2. cbn in *. auto. }
+  destruct (cons s) as [| |b].
+  - destruct op.
+    + destruct (inactive s); [right; destruct (Hsw _ H) as [-> ->]; auto|].
+      destruct (stack s); injection H as <- <-; cbn; right; split; auto.
+      right. exists OpDeq. split; [discriminate|reflexivity].
+    + destruct (inactive s); [right; destruct (Hsw _ H) as [-> ->]; auto|].
+      destruct (stack s); injection H as <- <-; cbn; right; split; auto.
+      right. exists OpTryInactive. split; [discriminate|reflexivity].
+    + destruct (inactive s); [right; destruct (Hsw _ H) as [-> ->]; auto|].
+      destruct (stack s); injection H as <- <-; cbn; right; split; auto.
+    + injection H as H. destruct (do_mark_active_script s rest) as [E1 E2]. rewrite H in E1, E2. cbn in *.
+      right. split; [exact E2|]. right. exists OpTryActive. split; [discriminate|]. now rewrite E1.
+    + destruct (all_prods_done s); [|discriminate].
+      destruct (do_mark_active s [OpDeq]) as [s1 e1]. injection H as <- <-. left. reflexivity.
+  - injection H as <- <-. unfold do_xchg; cbn. right. split; [reflexivity|]. right.
+    destruct Hpc as [r [E|E]]; injection E as -> ->; eexists; (split; [|reflexivity]); discriminate.
+  - destruct Hpc as [r E]. injection E as -> ->.
+    destruct b; destruct (stack s); injection H as <- <-; cbn; right; (split; [reflexivity|]);
+      first [left; reflexivity | right; eexists; split; [|reflexivity]; discriminate].
+Qed.
+
+Lemma step_finv a0 t s s' evs : Inv a0 s -> FInv s -> step t s = Some (s', evs) -> FInv s'.
+Proof.
+  unfold FInv, step. intros I F H.
+  destruct (Nat.eqb t 0).
+  - destruct (cons_script_step a0 s s' evs I H) as [Hf|[Hf [E|(op & Hop & E)]]].
+    + rewrite Hf. discriminate.
+    + rewrite Hf, E. exact F.
+    + rewrite Hf. intros Hn. specialize (F Hn). rewrite E in F. eapply tail_final_cons; eauto.
+  - destruct (Nat.leb t (nprods s)); [|discriminate]. unfold step_prod in H.
+    destruct (nth_error (prods s) (pred t)) as [[n [j|j old]]|]; try discriminate.
+    + destruct (Nat.ltb j n); [|discriminate]. injection H as <- <-. exact F.
+    + destruct (ptr_eqb (head_ptr s) old); injection H as <- <-; exact F.
+Qed.
+
+Theorem finv_reachable a0 counts pre (sched : list nat) :
+  let s := fst (run step sched (init a0 counts (pre ++ [OpFinal]), [])) in
+  Inv a0 s /\ FInv s.
+Proof.
+  apply (run_invariant_state _ _ _ step (fun s => Inv a0 s /\ FInv s)).
+  - intros s t s' ev [I F] H. split; [eapply step_inv; eauto|eapply step_finv; eauto].
+  - split; [apply inv_init|]. intros _. now exists pre.
+Qed.
+
+(* ------------------------------------------------------------------------------------------ *)
+(* traces                                                                                      *)
+
+Definition enqs (tr : list ev) : list item :=
+  flat_map (fun e => match e with EEnqCas _ it true => [it] | _ => [] end) tr.
+Definition batches (tr : list ev) : list item :=
+  flat_map (fun e => match e with EBatch b => b | _ => [] end) tr.
+Definition n_marks (tr : list ev) : nat :=
+  length (filter (fun e => match e with EMarkInactive _ true => true | _ => false end) tr).
+Definition n_wakes (tr : list ev) : nat :=
+  length (filter (fun e => match e with EWake _ => true | _ => false end) tr).
+Definition n_actives (tr : list ev) : nat :=
+  length (filter (fun e => match e with EMarkActive _ true => true | _ => false end) tr).
+
+Lemma step_ghost t s s' evs :
+  step t s = Some (s', evs) ->
+  enq s' = enq s ++ enqs evs /\ delivered s' = delivered s ++ batches evs /\
+  marks s' = marks s + n_marks evs /\ wakes s' = wakes s + n_wakes evs /\
+  actives s' = actives s + n_actives evs.
+Proof.
+  unfold step. destruct (Nat.eqb t 0).
+  - unfold step_cons, self_wake, do_mark_active, do_xchg.
+    destruct (script s) as [|op rest]; [discriminate|].
+    destruct (cons s) as [| |b]; [destruct op| |]; try (destruct (all_prods_done s));
+      try (destruct (inactive s)); try (destruct (stack s)); try (destruct b);
+      try discriminate; intros H; injection H as <- <-; cbn;
+      rewrite ?app_nil_r, ?Nat.add_0_r, ?Nat.add_1_r; auto.
+  - destruct (Nat.leb t (nprods s)); [|discriminate]. unfold step_prod.
+    destruct (nth_error (prods s) (pred t)) as [[n [j|j old]]|]; try discriminate.
+    + destruct (Nat.ltb j n); [|discriminate]. intros H; injection H as <- <-; cbn.
+      rewrite ?app_nil_r, ?Nat.add_0_r; auto.
+    + destruct (ptr_eqb (head_ptr s) old); [destruct (inactive s)|]; intros H; injection H as <- <-; cbn;
+        rewrite ?app_nil_r, ?Nat.add_0_r, ?Nat.add_1_r; auto.
+Qed.
+
+Definition TInv (c : st * list ev) : Prop :=
+  enqs (snd c) = enq (fst c) /\ batches (snd c) = delivered (fst c) /\
+  n_marks (snd c) = marks (fst c) /\ n_wakes (snd c) = wakes (fst c) /\
+  n_actives (snd c) = actives (fst c).
+
+Theorem tinv_reachable a0 counts ops (sched : list nat) :
+  TInv (run step sched (init a0 counts ops, [])).
+Proof.
+  apply (run_invariant _ _ _ step TInv).
+  - intros c t s' ev (H1 & H2 & H3 & H4 & H5) H. apply step_ghost in H as (G1 & G2 & G3 & G4 & G5).
+    unfold TInv, enqs, batches, n_marks, n_wakes, n_actives in *; cbn [fst snd].
+    rewrite !flat_map_app, !filter_app, !app_length, H1, H2, H3, H4, H5, G1, G2, G3, G4, G5. auto.
+  - repeat split; reflexivity.
+Qed.
+
+(* ------------------------------------------------------------------------------------------ *)
+(* theorems                                                                                    *)
+
+Section Reach.
+  Variables (a0 : bool) (counts : list nat) (ops : list cop) (sched : list nat).
+  Let c := run step sched (init a0 counts ops, []).
+  Let s := fst c.
+  Let tr := snd c.
+  Let HI : Inv a0 s := inv_reachable a0 counts ops sched.
+  Let HT : TInv c := tinv_reachable a0 counts ops sched.
+
+  (* nothing lost, nothing duplicated, FIFO: the batches handed to the consumer, concatenated, plus
+     what is still chained off head_ (reversed) are exactly the items in the order of their
+     successful CAS; no item occurs twice *)
+  Theorem fifo_no_loss :
+    enqs tr = batches tr ++ rev (stack s) /\ NoDup (enqs tr).
+  Proof.
+    destruct HT as (H1 & H2 & _). fold tr s in H1, H2. rewrite H1, H2. split.
+    - apply (Q_fifo a0 s HI).
+    - apply (Q_nodup a0 s HI).
+  Qed.
+
+  Theorem batches_nodup : NoDup (batches tr).
+  Proof. destruct fifo_no_loss as [E Hn]. rewrite E in Hn. eapply NoDup_app_l; eauto. Qed.
+
+  (* enqueue() returns true to exactly one producer per successful try_mark_inactive (unless the
+     consumer re-activated itself with try_mark_active): at every moment
+       #successful try_mark_inactive (+1 if the queue started inactive)
+         = #enqueue returned true + #successful try_mark_active (+1 if the queue is inactive now) *)
+  Theorem enqueue_inactive_unique :
+    n_marks tr + b2n (negb a0) = n_wakes tr + n_actives tr + b2n (inactive s).
+  Proof.
+    destruct HT as (_ & _ & H3 & H4 & H5). fold tr s in H3, H4, H5. rewrite H3, H4, H5.
+    apply (Q_count a0 s HI).
+  Qed.
+
+  (* while the consumer is marked inactive nothing is chained off head_ and the consumer is between
+     operations *)
+  Theorem inactive_empty : inactive s = true -> stack s = [] /\ cons s = CStart.
+  Proof. apply (Q_ina a0 s HI). Qed.
+
+  Theorem enq_items : forall p j,
+    In (p, j) (enqs tr) <->
+    exists i n pc, p = S i /\ nth_error (prods s) i = Some (n, pc) /\ j < pushed pc.
+  Proof. destruct HT as (H1 & _). fold tr s in H1. rewrite H1. apply (Q_mem a0 s HI). Qed.
+End Reach.
+
+Definition counts_of (s : st) : list nat := map fst (prods s).
+
+Lemma map_fst_set_nth (l : list (nat * ppc)) i n pc pc' :
+  nth_error l i = Some (n, pc) -> map fst (set_nth i (n, pc') l) = map fst l.
+Proof.
+  revert i; induction l as [|y r IH]; intros [|i] H; cbn in *; try discriminate.
+  - injection H as ->. reflexivity.
+  - f_equal. auto.
+Qed.
+
+Lemma step_counts t s s' evs : step t s = Some (s', evs) -> counts_of s' = counts_of s.
+Proof.
+  unfold step, counts_of. destruct (Nat.eqb t 0).
+  - unfold step_cons, self_wake, do_mark_active, do_xchg.
+    destruct (script s) as [|op rest]; [discriminate|].
+    destruct (cons s) as [| |b]; [destruct op| |]; try (destruct (all_prods_done s));
+      try (destruct (inactive s)); try (destruct (stack s)); try (destruct b);
+      try discriminate; intros H; injection H as <- <-; reflexivity.
+  - destruct (Nat.leb t (nprods s)); [|discriminate]. unfold step_prod.
+    destruct (nth_error (prods s) (pred t)) as [[n [j|j old]]|] eqn:En; try discriminate.
+    + destruct (Nat.ltb j n); [|discriminate]. intros H; injection H as <- <-; cbn.
+      eapply map_fst_set_nth; eauto.
+    + destruct (ptr_eqb (head_ptr s) old); intros H; injection H as <- <-; cbn;
+        eapply map_fst_set_nth; eauto.
+Qed.
+
+Lemma counts_reachable a0 counts ops (sched : list nat) :
+  counts_of (fst (run step sched (init a0 counts ops, []))) = counts.
+Proof.
+  apply (run_invariant_state _ _ _ step (fun s => counts_of s = counts)).
+  - intros s t s' ev H1 H. apply step_counts in H. congruence.
+  - unfold counts_of; cbn. rewrite map_map. cbn. apply map_id.
+Qed.
+
+(* a script that ends with the final drain: when everything has finished, every item of every
+   producer has been handed to the consumer exactly once, in the order of the successful CASes *)
+Theorem final_all_delivered a0 counts pre (sched : list nat) :
+  let c := run step sched (init a0 counts (pre ++ [OpFinal]), []) in
+  final (fst c) = true ->
+  batches (snd c) = enqs (snd c) /\ NoDup (batches (snd c)) /\ stack (fst c) = [] /\
+  forall i n j, nth_error counts i = Some n -> j < n -> In (S i, j) (batches (snd c)).
+Proof.
+  intros c Hf. destruct (finv_reachable a0 counts pre sched) as [HI HF]. fold c in HI, HF.
+  set (s := fst c) in *. unfold final in Hf. destruct (script s) eqn:Es; [|discriminate].
+  assert (Hph : finalph s = true).
+  { destruct (finalph s) eqn:E; [reflexivity|]. exfalso. destruct (HF E) as [p Hp]. rewrite Es in Hp.
+    destruct p; discriminate. }
+  destruct (Q_final a0 s HI Hph) as (_ & _ & [E|[_ Hst]]); [rewrite Es in E; discriminate|].
+  destruct (fifo_no_loss a0 counts (pre ++ [OpFinal]) sched) as [Hfifo Hnd]. fold c s in Hfifo, Hnd.
+  rewrite Hst in Hfifo. cbn in Hfifo. rewrite app_nil_r in Hfifo.
+  split; [now rewrite Hfifo|]. split; [rewrite <- Hfifo; exact Hnd|]. split; [exact Hst|].
+  intros i n j Hn Hj. rewrite <- Hfifo. apply (enq_items a0 counts (pre ++ [OpFinal]) sched).
+  fold c s. pose proof (counts_reachable a0 counts (pre ++ [OpFinal]) sched) as Hc. fold c s in Hc.
+  rewrite <- Hc in Hn. unfold counts_of in Hn. apply nth_error_map_some in Hn as ([n' pc] & Hn & ->).
+  exists i, n', pc. repeat split; auto. cbn in Hj.
+  destruct (all_done_nth _ _ _ _ Hf Hn) as (j' & -> & Hle). cbn. lia.
+Qed.
+
+(* enqueue() returns true exactly when its CAS replaced the inactive marker, which re-activates
+   the queue; the step is a producer's *)
+Theorem wake_iff_cas_from_inactive a0 counts ops (sched1 : list nat) t s' evs it :
+  let c1 := run step sched1 (init a0 counts ops, []) in
+  step t (fst c1) = Some (s', evs) ->
+  (In (EWake it) evs <-> In (EEnqCas PInactive it true) evs) /\
+  (In (EWake it) evs -> inactive (fst c1) = true /\ inactive s' = false /\ t = fst it /\
+                        evs = [EEnqCas PInactive it true; EWake it]).
+Proof.
+  intros c1 H. set (s := fst c1) in *. unfold step in H. destruct (Nat.eqb_spec t 0) as [->|Ht].
+  - assert (Hno : forall e, In e evs -> match e with EWake _ | EEnqCas _ _ _ => False | _ => True end).
+    { unfold step_cons, self_wake, do_mark_active, do_xchg in H.
+      destruct (script s) as [|op rest]; [discriminate|].
+      destruct (cons s) as [| |b]; [destruct op| |]; try (destruct (all_prods_done s));
+        try (destruct (inactive s)); try (destruct (stack s)); try (destruct b);
+        try discriminate; injection H as <- <-; cbn; intros e He;
+        repeat (destruct He as [<-|He]; [exact I|]); destruct He. }
+    split; [split; intros Hin; destruct (Hno _ Hin)|intros Hin; destruct (Hno _ Hin)].
+  - destruct (Nat.leb t (nprods s)); [|discriminate]. unfold step_prod in H.
+    destruct t as [|i]; [congruence|]. cbn [pred] in H.
+    destruct (nth_error (prods s) i) as [[n [j|j old]]|]; try discriminate.
+    + destruct (Nat.ltb j n); [|discriminate]. injection H as <- <-. cbn.
+      split; [split; intros [E|[]]; discriminate|intros [E|[]]; discriminate].
+    + destruct (ptr_eqb (head_ptr s) old) eqn:Ecas; [|injection H as <- <-; cbn;
+        split; [split; intros [E|[]]; discriminate|intros [E|[]]; discriminate]].
+      unfold head_ptr in *. destruct (inactive s) eqn:Ei; injection H as <- <-; cbn.
+      * split.
+        -- split; intros [E|[E|[]]]; try discriminate; injection E as <-; auto.
+        -- intros [E|[E|[]]]; try discriminate. injection E as <-. auto.
+      * split.
+        -- split; intros [E|[]]; try discriminate. destruct (stack s); discriminate.
+        -- intros [E|[]]; discriminate.
+Qed.
